@@ -2592,7 +2592,7 @@ bool FPProc::GetPointValues(double x, double y, int k, CMPointVals &u)
             CComplex J;
             J=u.Js*1.e6;
 
-            u.E+=Re(J*J)*Im(blocklist[meshelem[i].lbl].o)/2.;
+            u.E+=Re(J*J)*Im(blocklist[meshelem[k].lbl].o)/2.;
         }
 
         u.Ph=0;
